@@ -650,6 +650,12 @@ class Builder:
                     n = v.static_len
         ty = arr(el, False)
         out = self.deep_probe() if self.chance(self.size.get('deep_before_vla_pct', 15)) else []
+        if isinstance(length, Lit) and n is not None and self.chance(35):
+            # the same length held in a (never reassigned) local: the size in bytes has to be computed at run time
+            lv = self.fresh('ln')
+            self.declare(VarInfo(lv, INT, frozen=True))
+            out.append(Decl(INT, False, lv, Lit('int', n, None, t=INT)))
+            length = Var(lv, t=INT) if self.chance(70) else Bin('+', Var(lv, t=INT), Lit('int', 0, None, t=INT), t=INT)
         out.append(ArrDecl(el, name, length))
         k = self.fresh('k')
         kv = Var(k, t=INT)
